@@ -1,10 +1,11 @@
 #!/bin/sh
 # usage: check.sh <property> [quick|thorough] [extra gosmt flags]
 export GOFLAGS=-mod=mod GOPROXY=off GOSUMDB=off GOTOOLCHAIN=local
-cd /verif || exit 2
+root="${VERIF_ROOT:-/verif}"
+cd "$root" || exit 2
 if [ ! -x bin/gosmt ] || [ -n "$(find engine -name '*.go' -newer bin/gosmt 2>/dev/null | head -1)" ]; then
   mkdir -p bin
-  (cd engine && go build -o /verif/bin/gosmt .) || { echo "ENGINE-ERROR cannot build engine"; exit 2; }
+  (cd engine && go build -o "$root/bin/gosmt" .) || { echo "ENGINE-ERROR cannot build engine"; exit 2; }
 fi
 p="$1"; t="${2:-quick}"; shift; [ $# -gt 0 ] && shift
 exec bin/gosmt check "$p" --tier "$t" "$@"
